@@ -11,6 +11,9 @@ import SpecsModel.Model.Fault
 import Driver.DispatchDom
 import Driver.DeriveDom
 import Driver.SaveLoadDom
+import Driver.ChangeSetDom
+import Driver.ConcDom
+import Driver.JoinDom
 import Std.Data.HashSet
 import Std.Data.HashMap
 open SpecsModel SpecsModel.Driver
@@ -26,6 +29,7 @@ structure WState where
   mon : WSpec := {}
   monDead : Bool := false
   afterMaint : Bool := false   -- between a maintain that had queued actions and the next mutating op
+  afterRjoin : Bool := false   -- between a restricted join and the next mutating op
   pendingFault : Option Nat := none  -- C19: `fault N` seen, applies to the next operation
   faults : Nat := 0
   leaked : Nat := 0
@@ -137,7 +141,7 @@ def worldLine (st : WState) (line : String) : WState × List String :=
   | ["case", id] =>
     let (st, outs) := st.closeCase
     ({ st with caseHash := 7, caseNontrivial := false, caseId := id, lineNo := 0, model := {},
-               diverged := false, pending := [], mon := {}, monDead := false, afterMaint := false, pendingFault := none, leaked := st.leaked + st.mon.leaked, cases := st.cases + 1 }, outs)
+               diverged := false, pending := [], mon := {}, monDead := false, afterMaint := false, afterRjoin := false, pendingFault := none, leaked := st.leaked + st.mon.leaked, cases := st.cases + 1 }, outs)
   | lt =>
     let (r, ledger) := splitLedger r0
     let st := { st with lineNo := st.lineNo + 1, lines := st.lines + 1,
@@ -240,7 +244,10 @@ def worldLine (st : WState) (line : String) : WState × List String :=
               | .ent .merge, none => hadQueue
               | _, some _ => st.afterMaint
               | _, none => if isProbe then st.afterMaint else false
-            let st := { st with afterMaint := afterMaint }
+            let afterRjoin := match op, nestedTag with
+              | .rjoin .., _ => true
+              | _, _ => if isProbe then st.afterRjoin else false
+            let st := { st with afterMaint := afterMaint, afterRjoin := afterRjoin }
             let shown := match nestedTag with
               | some t => s!"in {t} {l}"
               | none => l
@@ -252,6 +259,10 @@ def worldLine (st : WState) (line : String) : WState × List String :=
                 if tag != "C09" && tag != "C00" && (nestedTag.isSome || st.afterMaint) then
                   [s!"MON C09 case={st.caseId} line={st.lineNo} C09 state seen by / left after the lazily queued actions of a maintain differs from queue-order semantics ({why}) op=[{shown}] impl=[{r}]"]
                 else []
+              let extra := extra ++
+                (if tag == "C12" && st.afterRjoin then
+                  [s!"MON C13 case={st.caseId} line={st.lineNo} C13 events emitted by a restricted join differ from 'exactly the items fetched mutably' ({why}) op=[{shown}] impl=[{r}]"]
+                else [])
               ({ st with monDead := true, mons := st.mons + 1 },
                [s!"MON {tag} case={st.caseId} line={st.lineNo} {why} op=[{shown}] impl=[{r}]"] ++ extra)
         let st := if nestedTag.isNone && faultNow.isSome then { st with pendingFault := none } else st
@@ -281,4 +292,7 @@ def main : IO Unit := do
   | ["domain", "dispatch"] => runDispatch stdin
   | ["domain", "derive"] => runDerive stdin
   | ["domain", "saveload"] => runSaveLoad stdin
+  | ["domain", "changeset"] => runChangeSet stdin
+  | ["domain", "conc"] => runConc stdin
+  | ["domain", "join"] => runJoin stdin
   | _ => IO.println s!"BAD unknown domain line: {first}"
